@@ -307,7 +307,8 @@ def run_check(prop, tier, jobs, budget, verif_seed):
                 "seed": -1, "index": 0, "case": doc["case"],
                 "violation": v.as_dict(), "digest": cases.digest(res),
                 "corpus": os.path.relpath(path, ROOT)})
-    n_quick = QUICK_SEEDS[prop]
+    n_quick = int(QUICK_SEEDS[prop] *
+                  float(os.environ.get('VERIF_QUICK_SCALE', '1')))
     ctx = multiprocessing.get_context('fork')
     next_seed = seed0
     deadline = t0 + budget if tier == 'thorough' else None
